@@ -97,7 +97,8 @@ Inductive tr_in : Set :=
 | InPower (k : nat)                             (* slave k power cycles *)
 | InSlaveSet (k : nat) (silent : bool) (ready_delay : nat) (stat_diag diag_pending : bool)
              (force1 force2 : Z) (ext : bytes) (ident : Z)
-| InClean.                                      (* marker: from here on the script injects no faults *)
+| InClean                                       (* marker: from here on the script injects no faults *)
+| InResetAddr (k : nat) (a : Z).                (* get_mut(h_k).reset_address(a)  (appended after phase 1) *)
 
 Inductive tr_out : Set :=
 | OutTx (o : txout)                             (* what transmit_telegram returned *)
@@ -167,6 +168,11 @@ Definition run_in (s : sys) (i : tr_in) : res (sys * tr_out) :=
       | None => Ok (s, OutBad)
       end
   | InClean => Ok (s, OutUnit)
+  | InResetAddr k a =>
+      match handle_of s k with
+      | Some h => let* m := dp_reset_address (sy_m s) h a in Ok (set_m s m, OutUnit)
+      | None => Ok (s, OutBad)
+      end
   | InSlaveSet k silent rd sd dp f1 f2 ext ident =>
       match nth_error (sy_slaves s) k with
       | Some sl =>
